@@ -356,7 +356,7 @@ class C14(Spec):
         if tier == 'quick':
             scope, nrand, nbnd, maxops = [(1, 4), (2, 4), (3, 3)], 2500, 60, 30
         else:
-            scope, nrand, nbnd, maxops = [(1, 5), (2, 5), (3, 5)], 40000, 1500, 30
+            scope, nrand, nbnd, maxops = [(1, 5), (2, 5), (3, 5)], 150000, 4000, 30
         for cap, depth in scope:
             yield from self.exhaustive(cap, depth)
         for _ in range(nrand):
